@@ -177,7 +177,10 @@ def gen_case(rng):
             ("x_all", {"k": "AllOf", "els": [wgen.element(2), wgen.element(2)], "kw": {}}),
             ("any", {"k": "AnyOf", "els": [wgen.element(2), {"k": "String", "kw": {"format": "date-time"}}], "kw": {}}),
         ]
-        for attr, spec in rng.sample(menu, rng.randint(1, 3)):
+        picks = rng.sample(menu, rng.randint(1, 3))
+        if rng.random() < 0.6 and not any(a in ("fmt", "lst", "any") for a, _ in picks):
+            picks.append(rng.choice([m for m in menu if m[0] in ("fmt", "lst", "any")]))
+        for attr, spec in picks:
             target["props"][attr] = {"el": spec, "required": rng.random() < 0.3, "source": None}
         if rng.random() < 0.5:
             # an untyped property: the place where arbitrarily nested data goes
